@@ -207,6 +207,18 @@ func c11Check(c C11Case) *pbt.Violation {
 			} else {
 				bs = dst
 			}
+		case "wirefail":
+			// the writer gives up after some bytes: WriteTo reports it, and the storage is what it was
+			sink := iox.NewSink(int(op.V) % (8*len(rb.Pack(model, b)) + 2))
+			if _, err := bs.WriteTo(sink); err == nil && sink.Failed {
+				return pbt.V("c11.wire.writefault-swallowed", "wire form", "%s: the writer failed after %d bytes but WriteTo returned nil", step, sink.FailAfter)
+			}
+			for i := 0; i < n; i++ {
+				if got := bs.Get(i); uint64(got) != model[i] {
+					return pbt.V("c11.wire.writefault-damage", "no operation changes any other index (a failed WriteTo changes nothing)",
+						"%s: after a WriteTo that failed %d bytes in, Get(%d)=%d, model %d (bits %d n %d)", step, sink.FailAfter, i, got, model[i], b, n)
+				}
+			}
 		case "wronglen":
 			if b == 0 {
 				continue
@@ -316,13 +328,13 @@ func genC11(t *rapid.T) C11Case {
 	})
 	nops := rapid.IntRange(1, pbt.Pick(50, 200)).Draw(t, "nops")
 	for i := 0; i < nops; i++ {
-		k := rapid.SampledFrom([]string{"set", "set", "set", "swap", "swap", "get", "badindex", "badvalue", "rebuild", "wire", "wronglen"}).Draw(t, "op")
+		k := rapid.SampledFrom([]string{"set", "set", "set", "swap", "swap", "get", "badindex", "badvalue", "rebuild", "wire", "wronglen", "wirefail"}).Draw(t, "op")
 		op := C11Op{K: k, I: idx.Draw(t, "idx"), V: int64(val.Draw(t, "val"))}
 		if k == "wire" {
 			op.B = rapid.SampledFrom([]int{0, c.Bits, 1, 5, 32}).Draw(t, "dstbits")
 			op.V = int64(rapid.IntRange(0, 1000).Draw(t, "readplan")) // how the reader fragments the stream
 		}
-		if k == "badindex" || k == "badvalue" || k == "wronglen" {
+		if k == "badindex" || k == "badvalue" || k == "wronglen" || k == "wirefail" {
 			op.I = rapid.IntRange(0, 1000).Draw(t, "sel")
 			op.V = int64(rapid.IntRange(0, 1000).Draw(t, "sel2"))
 		}
